@@ -9,10 +9,6 @@ open ClairModel.CpeTypes ClairModel.CpeSpec
 
 /-! ### the two ends of a pattern -/
 
-def leadStr : Option Nat → Str
-  | none => [42]
-  | some n => List.replicate n 63
-
 def leadToks : Option Nat → List Tok
   | none => [.star]
   | some n => List.replicate n .q
